@@ -32,7 +32,7 @@ def strategy(ctx, shard=0):
 
 
 def budget(ctx):
-    return dict(max_examples=ctx.pick(3200, 40000), shards=16)
+    return dict(max_examples=ctx.pick(3200, 120000), shards=16)
 
 
 def warmup():
